@@ -59,6 +59,7 @@ def minimise(spec, cfg, latencies, cls, scratch, budget=70):
         r = _run(s, c, scratch, latencies=l, tag="min")
         return r["violation"] is not None and r["violation"]["class"] == cls
 
+    cfg = dict(cfg, hang_after_s=8)  # a busy loop is re-detected quickly while minimising
     if not fails(spec, cfg, latencies):
         return None
     cur_s, cur_c, cur_l = copy.deepcopy(spec), copy.deepcopy(cfg), list(latencies)
@@ -161,7 +162,8 @@ def worker(seed, widx, nworkers, plan, scratch):
                 raise HarnessError(f"non-deterministic C11 run {i}: {res['digest']} / {res2['digest']} / replay {res3['digest']}")
         v = res["violation"]
         if v is not None:
-            m = minimise(spec, cfg, res["latencies"], v["class"], scratch)
+            hang = "kept the CPU" in v["message"]
+            m = minimise(spec, cfg, res["latencies"], v["class"], scratch, budget=12 if hang else 70)
             if m is None:
                 raise HarnessError(f"C11 violation of run {i} does not replay: {v}")
             s2, c2, r2 = m
